@@ -102,6 +102,7 @@ type Gen struct {
 	wreach   map[*ssa.Function]bool // functions that can reach a writer of the root's private keys (private.go)
 	macros   map[string]string // array-valued define-funs: name -> sort
 	atoms    map[string]string // macro name -> constant equal to it (for patterns)
+	msgUniSeed []types.Type    // message types that received a type tag in the previous pass
 	msgUni   []types.Type      // message types mentioned by the package under verification (msgmodel.go)
 	constVal map[ssa.Value]Val // write-once local variable cells (see constcell.go): their content as a value
 }
@@ -131,7 +132,7 @@ func (g *Gen) def(prefix, sort, term string) string {
 		return name
 	}
 	g.emit(fmt.Sprintf("(define-fun %s () %s %s)", name, sort, term))
-	if strings.HasPrefix(sort, "(Array") {
+	if sort != "Bool" {
 		if g.macros == nil {
 			g.macros = map[string]string{}
 		}
@@ -225,6 +226,11 @@ func (g *Gen) markAlloc(t types.Type) {
 func (g *Gen) heapBound(k, term, alloc string) {
 	ki := g.keys[k]
 	if ki.ref == "" {
+		return
+	}
+	if ki.ref == "seq" {
+		_, ln, _ := seqFns(ki.sort)
+		g.assumeRaw(fmt.Sprintf("(<= 0 (%s %s))", ln, term))
 		return
 	}
 	if g.pass != 1 && !g.allocKinds[ki.valT] {
